@@ -1,0 +1,105 @@
+//go:build verif
+
+package main
+
+// Machine-checked contracts for the verification machinery in /verif (govc).
+// This file contains comments only and is compiled only with -tags verif.
+//
+// C15 as far as function contracts reach: the flag values are passed on to Filter as they are
+// documented, every file is linted with the format its own name implies, nothing is written
+// before an input is rejected, the bytes handed to the parser are the decoded input whatever the
+// format, and what is written is the JSON encoding of the library's result for that very object
+// and registry. The process exit status, what logrus and os do, and the bytes that reach the
+// terminal are outside any contract (assumed: log.Fatal* does not return).
+
+//@ trace extern strings.Split as Split
+
+//@ func trimmedList [C15]
+//@   nopanic
+//@   assigns \fresh
+//@   loop 1 invariant len(list) == k && g.nSplit == 1 && k <= len(g.retSplit) && forall(j, 0, k, list[j] == trim(splitAt(raw, ",", j)))
+//@   loop 1 invariant len(g.retSplit) == splitLen(raw, ",") && baseof(list) != baseof(g.retSplit) &&
+//@                    forall(j, 0, len(g.retSplit), g.retSplit[j] == splitAt(raw, ",", j))
+//@   ensures len(result) == splitLen(raw, ",") && forall(j, 0, len(result), result[j] == trim(splitAt(raw, ",", j)))
+//@   ensures fresh(result) || result == nil
+
+// the flag values reach Filter as documented: -nameFilter compiled, -excludeNames / -includeNames as
+// trimmed comma lists (the profile's lints appended to the includes), -excludeSources /
+// -includeSources as the sources they name; with no selector the global registry itself is used;
+// every parse or lookup error is returned or is fatal
+//@ spec noSelector() bool = nameFilter == "" && includeNames == "" && excludeNames == "" && includeSources == "" && excludeSources == "" && profile == ""
+//@ spec isTrimmed(l []string, raw string) bool = len(l) == splitLen(raw, ",") && forall(j, 0, len(l), l[j] == trim(splitAt(raw, ",", j)))
+//@ spec namesSources(l lint.SourceList, raw string) bool =
+//@      forall(i, 0, len(l), exists(j, 0, splitLen(raw, ","), trim(splitAt(raw, ",", j)) != "" && lint.LintSource(trim(splitAt(raw, ",", j))) == l[i])) &&
+//@      forall(j, 0, splitLen(raw, ","), trim(splitAt(raw, ",", j)) == "" || exists(i, 0, len(l), l[i] == lint.LintSource(trim(splitAt(raw, ",", j)))))
+//@ trace extern regexp.Compile as Compile
+
+// the "is any selector flag set" helper inside setLints
+//@ func setLints$1 [C15]
+//@   nopanic
+//@   assigns \nothing
+//@   loop 1 invariant forall(j, 0, k, args[j] == "")
+//@   ensures result == exists(j, 0, len(args), args[j] != "")
+
+//@ func setLints [C15]
+//@   maypanic
+//@   ensures implies(result1 == nil && noSelector(), g.nFlt == 0 && result0 == lint.GlobalRegistry())
+//@   ensures implies(result1 == nil && !noSelector(), g.nFlt == 1 && result0 == g.retFlt && g.recvFlt == lint.GlobalRegistry())
+//@   ensures implies(g.nFlt == 1 && nameFilter == "", g.argFlt.NameFilter == nil)
+//@   ensures implies(g.nFlt == 1 && nameFilter != "", g.nCompile == 1 && g.argCompile == nameFilter && g.argFlt.NameFilter == g.retCompile)
+//@   ensures implies(g.nFlt == 1 && excludeNames == "", len(g.argFlt.ExcludeNames) == 0)
+//@   ensures implies(g.nFlt == 1 && excludeNames != "", isTrimmed(g.argFlt.ExcludeNames, excludeNames))
+//@   ensures implies(g.nFlt == 1 && profile == "" && includeNames == "", len(g.argFlt.IncludeNames) == 0)
+//@   ensures implies(g.nFlt == 1 && profile == "" && includeNames != "", isTrimmed(g.argFlt.IncludeNames, includeNames))
+//@   ensures implies(g.nFlt == 1 && excludeSources == "", len(g.argFlt.ExcludeSources) == 0)
+//@   ensures implies(g.nFlt == 1 && excludeSources != "", namesSources(g.argFlt.ExcludeSources, excludeSources))
+//@   ensures implies(g.nFlt == 1 && includeSources == "", len(g.argFlt.IncludeSources) == 0)
+//@   ensures implies(g.nFlt == 1 && includeSources != "", namesSources(g.argFlt.IncludeSources, includeSources))
+
+// one input: nothing is written before the input is rejected (the requires of log.Fatal*), the bytes
+// handed to the parser are the decoded input for each of the three formats, the library entry point is
+// called once with the parsed object and the selected registry, and what is marshalled and (in the
+// default mode) written is that call's Results
+//@ trace extern (*os.File).Write as Out
+//@ trace extern fmt.Printf as Prt
+//@ trace extern io.ReadAll as Read
+//@ trace extern encoding/pem.Decode as Pem
+//@ trace extern (*encoding/base64.Encoding).DecodeString as B64
+//@ trace extern github.com/zmap/zcrypto/x509.ParseCertificate as ParseCert
+//@ trace extern github.com/zmap/zcrypto/x509.ParseRevocationList as ParseCrl
+//@ trace extern encoding/json.Marshal as Marshal
+
+//@ func doLint [C15]
+//@   maypanic
+//@   assigns \fresh
+//@   ensures g.nRead == 1 && g.nParseCert + g.nParseCrl == 1 && g.nLintC + g.nLintR == 1 && g.nMarshal == 1
+//@   ensures implies(inform == "der", g.nPem == 0 && g.nB64 == 0 && g.nParseCert == 1 && g.argParseCert == g.retRead)
+//@   ensures implies(inform == "base64", g.nPem == 0 && g.nB64 == 1 && g.argB64 == strOfBytes(g.retRead) && g.nParseCert == 1 && g.argParseCert == g.retB64)
+//@   ensures implies(inform == "pem", g.nPem == 1 && g.nB64 == 0 && g.argPem == g.retRead && g.retPem != nil &&
+//@                   implies(g.nParseCert == 1, g.retPem.Type == "CERTIFICATE" && g.argParseCert == g.retPem.Bytes) &&
+//@                   implies(g.nParseCrl == 1, g.retPem.Type == "X509 CRL" && g.argParseCrl == g.retPem.Bytes))
+//@   ensures inform == "der" || inform == "base64" || inform == "pem"
+//@   ensures implies(g.nParseCert == 1, g.nLintC == 1 && g.argLintC == g.retParseCert && g.bseqLintC[1] == registry &&
+//@                   unbox(g.argMarshal, map[string]*lint.LintResult) == g.retLintC.Results)
+//@   ensures implies(g.nParseCrl == 1, g.nLintR == 1 && g.argLintR == g.retParseCrl && g.bseqLintR[1] == registry &&
+//@                   unbox(g.argMarshal, map[string]*lint.LintResult) == g.retLintR.Results)
+//@   ensures implies(!prettyprint && !summary && !longSummary, g.nSum == 0 && g.nPrt == 0 && g.nOut == 2 && g.aseqOut[1] == g.retMarshal)
+//@   ensures implies(summary, g.nSum >= 1) && implies(longSummary, g.nSum >= 1)
+
+// several files in one invocation: each is linted with the format its own name implies (a .der or
+// .pem suffix, else the -format flag) - never with what an earlier file implied - and with the one
+// registry the selectors produced
+//@ spec informFor(path string, fallback string) string =
+//@      ite(hasSuffix(path, ".der"), "der", ite(hasSuffix(path, ".pem"), "pem", fallback))
+//@ trace func doLint as Do
+//@ trace extern flag.Args as Args
+//@ trace func setLints as Sel
+
+//@ func main [C15]
+//@   maypanic
+//@   loop 3 invariant g.nArgs == 1
+//@   loop 3 invariant g.nSel == 1
+//@   loop 3 invariant g.nDo == k
+//@   loop 3 invariant k <= len(g.retArgs)
+//@   loop 3 invariant forall(j, 0, k, g.bseqDo[j+1] == informFor(g.retArgs[j], lower(format)))
+//@   ensures true
